@@ -6,6 +6,7 @@ import (
 	"fmt"
 	"sort"
 	"sync"
+	"time"
 
 	"github.com/lni/dragonboat/v4/client"
 	"github.com/lni/dragonboat/v4/config"
@@ -433,7 +434,7 @@ func (u *Universe) proposalFault(s *Shard) ProposalFault {
 	for _, f := range []struct {
 		p uint64
 		k ProposalFault
-	}{{u.BusyPermille, FaultBusy}, {u.DropPermille, FaultDropped}, {u.TimeoutLostPermille, FaultTimeoutLost}, {u.TimeoutAppliedPermille, FaultTimeoutApplied}} {
+	}{{u.BusyPermille, FaultBusy}, {u.DropPermille, FaultDropped}, {u.TimeoutLostPermille, FaultTimeoutLost}, {u.TimeoutAppliedPermille, FaultTimeoutApplied}, {u.TimeoutLatePermille, FaultTimeoutLate}} {
 		if x < f.p {
 			return f.k
 		}
@@ -483,6 +484,39 @@ func (nh *NodeHost) SyncPropose(ctx context.Context, session *client.Session, cm
 		return sm.Result{}, ErrShardNotReady
 	case FaultTimeoutLost:
 		u.stat("proposal-timeout-lost")
+		return sm.Result{}, ErrTimeout
+	case FaultTimeoutLate:
+		// slow apply: the entry is committed at its place in the log and the other replicas apply it, but
+		// the proposing node's state machine is behind for a while (a long snapshot save, a compaction
+		// stall), so the caller's deadline passes first. The replica applies, in log order, when the
+		// keyed delay is over. Until then it behaves like a stalled replica (reads are stale, further
+		// proposals time out the same way).
+		u.stat("proposal-timeout-late")
+		max := u.TimeoutLateMaxMs
+		if max == 0 {
+			max = 3000
+		}
+		d := time.Duration(1+u.keyed("latedelay", strHash(s.Key.String()), s.nprop)%max) * time.Millisecond
+		s.entries = append(s.entries, newEntry(s, cmd))
+		u.followersCatchUpLocked(s, r)
+		if !r.Stalled {
+			r.Stalled = true
+			r.slowUntil++
+			tok := r.slowUntil
+			time.AfterFunc(d, func() {
+				u.mu.Lock()
+				defer u.mu.Unlock()
+				if r.slowUntil != tok || !r.Stalled {
+					return
+				}
+				r.Stalled = false
+				u.stat("late-proposal-applied")
+				u.event("slow replica %s r%d resumes", s.Key, r.ID)
+				if r.up() && !r.Lagging {
+					_ = u.applyLocked(r, s.last())
+				}
+			})
+		}
 		return sm.Result{}, ErrTimeout
 	case FaultTimeoutApplied:
 		u.stat("proposal-timeout-applied")
